@@ -352,6 +352,8 @@ struct Shared
   std::vector<std::uint8_t> D; // concatenation of the onData buffers of our session
   std::size_t otherData = 0;
   std::size_t accepts = 0, connects = 0, closes = 0;
+  std::atomic<int> expectPeerPort{-1}; // listener role: source port of the raw peer's connection (-1: any)
+  std::atomic<unsigned> foreign{0};    // connections that are not the raw peer's (some other process hit our ephemeral port)
   std::atomic<std::uint64_t> ticks{0};
   std::function<void(net::SessionId)> onAnnounce; // runs on the I/O thread
 };
@@ -743,6 +745,39 @@ net::TransportConfig makeConfig(const Plan &p)
   return cfg;
 }
 
+
+// Accept the raw peer's end of OUR connection on lfd: the accepted socket's remote port must be
+// the local port of the engine's session. A connection from anywhere else (another process that
+// hit the ephemeral port) is reset and ignored.
+int acceptOwn(int lfd, net::Transport &t, net::SessionId sid, Shared &sh, int timeoutMs)
+{
+  auto t0 = Clock::now();
+  while (msSince(t0) < timeoutMs)
+  {
+    int fd = rawpeer::tcpAccept(lfd, timeoutMs - static_cast<int>(msSince(t0)));
+    if (fd < 0) return -1;
+    std::uint16_t rp = rawpeer::remotePort(fd), lp = 0;
+    while (msSince(t0) < timeoutMs)
+    {
+      auto la = t.getLocalAddress(sid);
+      if (la.port)
+      {
+        lp = la.port;
+        break;
+      }
+      {
+        std::lock_guard<std::mutex> lk(sh.mu);
+        if (sh.closed) break; // session already gone again (e.g. back-pressure close): cannot be verified any more
+      }
+      std::this_thread::sleep_for(std::chrono::microseconds(200));
+    }
+    if (lp == 0 || lp == rp) return fd;
+    sh.foreign.fetch_add(1);
+    rawpeer::reset(fd);
+  }
+  return -1;
+}
+
 // ------------------------------------------------------------------------- execution
 void runPlan(const Plan &p, pbt::Case &c)
 {
@@ -852,9 +887,15 @@ void runPlan(const Plan &p, pbt::Case &c)
     }
   };
 
-  t->onAccept([sh](net::SessionId sid, const net::TransportAddress &) {
+  t->onAccept([sh](net::SessionId sid, const net::TransportAddress &a) {
     std::function<void(net::SessionId)> f;
     {
+      int exp = sh->expectPeerPort.load();
+      if (exp >= 0 && a.port != exp)
+      {
+        sh->foreign.fetch_add(1); // not the raw peer's connection
+        return;
+      }
       std::lock_guard<std::mutex> lk(sh->mu);
       ++sh->accepts;
       if (!sh->haveSid)
@@ -960,7 +1001,7 @@ void runPlan(const Plan &p, pbt::Case &c)
       doSend(0, i, sid, earlyBuf);
       sent0.fetch_add(1);
     }
-    peer.fd = rawpeer::tcpAccept(lfd, kSetupMs);
+    peer.fd = acceptOwn(lfd, *t, sid, *sh, kSetupMs);
     if (peer.fd < 0)
     {
       c.inconclusive("raw peer did not get the connection");
@@ -997,7 +1038,7 @@ void runPlan(const Plan &p, pbt::Case &c)
         }
       };
     }
-    peer.fd = rawpeer::tcpConnect(la.port, p.peerRcvBuf, p.peerSndBuf);
+    peer.fd = rawpeer::tcpConnectFrom(la.port, p.peerRcvBuf, p.peerSndBuf, [&](std::uint16_t lp) { sh->expectPeerPort.store(lp); });
     if (peer.fd < 0)
     {
       c.inconclusive("raw peer could not connect");
@@ -1045,10 +1086,29 @@ void runPlan(const Plan &p, pbt::Case &c)
     // means the engine put bytes on the wire that are not a TLS handshake.
     int reason = ERR_GET_REASON(tlsPeer.lastErrCode);
     bool corrupt = tlsPeer.lastSslError == SSL_ERROR_SSL && reason < 1000 && reason != SSL_R_UNEXPECTED_EOF_WHILE_READING;
+    // handshake timed out while the peer was waiting for bytes from the engine, nothing is in
+    // flight in either direction and the session is not reported closed: the engine owes the step
+    bool owed = false;
+    if (tlsPeer.lastWant == SSL_ERROR_WANT_READ)
+    {
+      int oq = -1, iq = -1, eiq = -1;
+      int efd = c01net::lastEngineStreamFd();
+      bool closedNow;
+      {
+        std::lock_guard<std::mutex> lk(sh->mu);
+        closedNow = sh->closed;
+      }
+      if (!closedNow && efd >= 0 && ::ioctl(efd, SIOCOUTQ, &oq) == 0 && ::ioctl(peer.fd, FIONREAD, &iq) == 0 && ::ioctl(efd, FIONREAD, &eiq) == 0)
+        owed = (oq == 0 && iq == 0);
+      (void)eiq;
+    }
     std::string e = tlsPeer.err;
     teardown(true);
     if (corrupt)
       c.fail("C01/tls-wire-corrupt", "the OpenSSL peer rejected the engine's handshake bytes: " + e);
+    else if (owed)
+      c.failTimed("C01/tls-handshake-stall", "the OpenSSL peer waited " + std::to_string(kStallMs) +
+                                               " ms for handshake bytes from the engine; nothing was in flight and the session was not reported closed");
     else
       c.inconclusive("TLS handshake did not complete: " + e);
     return;
@@ -1306,7 +1366,8 @@ void runPlan(const Plan &p, pbt::Case &c)
     c.fail("C01/tls-wire-corrupt", "the OpenSSL peer could not decode the engine's records: " + peer.tlsErr);
     return;
   }
-  if (otherData)
+  if (sh->foreign.load()) c.label("foreign connection on an ephemeral port ignored");
+  if (otherData && sh->foreign.load() == 0)
   {
     c.fail("C01/data-on-foreign-session", "onData delivered " + std::to_string(otherData) + " bytes on a session id that is not the only session of this transport");
     return;
@@ -1426,7 +1487,13 @@ void runCuts(const CutsPlan &p, pbt::Case &c)
   cfg.batching.enabled = p.batching;
   cfg.ioReadChunk = p.readChunk;
   auto t = net::Transport::tcp(cfg);
-  t->onAccept([sh](net::SessionId sid, const net::TransportAddress &) {
+  t->onAccept([sh](net::SessionId sid, const net::TransportAddress &a) {
+    int exp = sh->expectPeerPort.load();
+    if (exp >= 0 && a.port != exp)
+    {
+      sh->foreign.fetch_add(1);
+      return;
+    }
     std::lock_guard<std::mutex> lk(sh->mu);
     if (!sh->haveSid)
     {
@@ -1486,13 +1553,13 @@ void runCuts(const CutsPlan &p, pbt::Case &c)
       sh->haveSid = true;
       sh->sid = sid;
     }
-    fd = rawpeer::tcpAccept(lfd, kSetupMs);
+    fd = acceptOwn(lfd, *t, sid, *sh, kSetupMs);
   }
   else
   {
     auto lr = t->addListener("127.0.0.1", 0, net::TlsMode::None);
     std::uint16_t port = lr.isOk() ? t->getListenerAddress(lr.value()).port : 0;
-    fd = port ? rawpeer::tcpConnect(port) : -1;
+    fd = port ? rawpeer::tcpConnectFrom(port, 0, 0, [&](std::uint16_t lp) { sh->expectPeerPort.store(lp); }) : -1;
   }
   bool ready = false;
   if (fd >= 0)
@@ -1641,7 +1708,7 @@ void runCuts(const CutsPlan &p, pbt::Case &c)
     other = sh->otherData;
   }
   teardown();
-  if (other && !c.failed()) c.fail("C01/data-on-foreign-session", "onData on an unknown session id");
+  if (other && sh->foreign.load() == 0 && !c.failed()) c.fail("C01/data-on-foreign-session", "onData on an unknown session id");
   c.label(p.role == Connector ? "role: iora connects" : "role: iora listens");
   c.label(p.et ? "edge-triggered" : "level-triggered");
   if (p.batching) c.label("batching on");
